@@ -1542,7 +1542,8 @@ class MPO(MPSGeometry):
         max_range : None | int
             Ignored for finite MPS; for finite MPS we consider only the terms contained in the
             sites with indices ``range(self.L + 2 * max_range)``.
-            None defaults to :attr:`max_range` (or :attr:`L` in case this is infinite or None).
+            None defaults to the larger :attr:`max_range` of `self` and `other`
+            (with :attr:`L` in case this is infinite or None).
 
         Returns
         -------
@@ -1554,10 +1555,10 @@ class MPO(MPSGeometry):
             num_sites = self.L
         elif max_range is not None and max_range < np.inf:
             num_sites = self.L + 2 * max_range
-        elif self.max_range is not None and self.max_range < np.inf:
-            num_sites = self.L + 2 * self.max_range
         else:
-            num_sites = self.L + 2 * self.L
+            # consider the longer range of `self` and `other`; `L` for an unknown or infinite range
+            ranges = [H.L if H.max_range is None or H.max_range == np.inf else H.max_range for H in (self, other)]
+            num_sites = self.L + 2 * max(ranges)
         ov = self.overlap(other, understood_infinite=True, num_sites=num_sites)
         s_norm = self.overlap(self, understood_infinite=True, num_sites=num_sites)
         o_norm = other.overlap(other, understood_infinite=True, num_sites=num_sites)
